@@ -10,9 +10,11 @@
    witness) - the model is deliberately the intended behaviour there and the correspondence excludes that class.  Lengths, CRCs, the zlib stream
    of every image (exact end, Adler-32, inflated size h x (1+row bytes), filter bytes <= 4) are checked on the emitted BYTES by the independent
    validator in the harness on every run; filtering itself is C14/C03. *)
+From Coq Require Import ZArith.
 From Coq Require Import List Arith Bool Lia.
 Import ListNotations.
 From PngV Require Import Spec.Validator Model.Encoder Proofs.EncoderProofs.
+From PngV Require Import Model.FrameRect Proofs.FrameRectProofs.
 
 (* the theorem *)
 Theorem C12_writer_output_is_conformant :
@@ -51,13 +53,40 @@ Theorem C12_end_is_accepted :
        inv c nf s v -> frames v = nf -> ph (vstep v KIEND) = PEnd.
 Proof. exact end_ok. Qed.
 
+(* frame rectangles (Model/FrameRect.v): whatever setters and images a history contains, every fcTL written carries a non-empty rectangle inside the canvas and the first one is the canvas *)
+Theorem C12_every_fctl_rectangle_is_legal_and_the_first_covers_the_canvas :
+  forall (w h : Z) (ops : list fop),
+       (0 < w)%Z ->
+       (0 < h)%Z ->
+       Forall op_u32 ops ->
+       Forall (rect_legal w h) (fctls (frun (f_init w h) ops)) /\
+       match fctls (frun (f_init w h) ops) with
+       | [] => True
+       | r :: _ => r = {| r_w := w; r_h := h; r_x := 0; r_y := 0 |}
+       end.
+Proof. exact every_fctl_is_legal_and_the_first_covers_the_canvas. Qed.
+
+(* Encoder::with_info: a frame control given from outside is accepted iff it is the canvas rectangle *)
+Theorem C12_with_info_refuses_exactly_the_non_canvas_frame_controls :
+  forall (w h : Z) (r : rect),
+       f_with_info w h r = None <-> r <> {| r_w := w; r_h := h; r_x := 0; r_y := 0 |}.
+Proof. exact with_info_refusal_exact. Qed.
+
 Example C12_nonvacuous :
   emitted (mk_wcfg (Some 2) true true 1 2) [1; 2; 1] =
   [KIHDR; KANC; KACTL 2; KPLTE; KANC; KANC; KIDAT; KFCTL 0; KFDAT 1; KFDAT 2; KFCTL 3; KFDAT 4; KIEND]
   /\ conformant (emitted (mk_wcfg (Some 2) true true 1 2) [1; 2; 1]) = true
   /\ conformant [KIHDR; KACTL 1; KFCTL 0; KIDAT; KFDAT 1; KIEND] = false.
 Proof. vm_compute. repeat split; reflexivity. Qed.
+(* non-vacuity of the frame-rectangle statements: setters before the first image refused, sub-rectangles after it accepted, an overflowing position refused *)
+Example C12_rect_demo :
+  (frun_codes 8 8 [FDim 4 4; FPos 1 1; FImage; FDim 4 4; FPos 5 1; FPos 4 4; FImage; FResetPos; FResetDim; FImage]
+  = [[1]; [1]; [2; 8; 8; 0; 0]; [0]; [1]; [0]; [2; 4; 4; 4; 4]; [0]; [0]; [2; 8; 8; 0; 0]])%Z.
+Proof. exact rect_demo. Qed.
+
 Print Assumptions C12_writer_output_is_conformant.
 Print Assumptions C12_header_part_is_conformant.
 Print Assumptions C12_each_later_frame_is_one_fcTL_then_fdATs.
 Print Assumptions C12_end_is_accepted.
+Print Assumptions C12_every_fctl_rectangle_is_legal_and_the_first_covers_the_canvas.
+Print Assumptions C12_with_info_refuses_exactly_the_non_canvas_frame_controls.
